@@ -71,11 +71,18 @@ PROBE_CMD(parse) {
 // {cmd:print_parse, ...}: D1 = parse(input); T1 = str(D1); D2 = parse(T1); T2 = str(D2); D3 = parse(T2); T3 = str(D3)
 PROBE_CMD(print_parse) {
     auto d1 = do_parse(req, the_parser());
+    // si_first: the Deck has been used before it is written - every item's SI data read once (what building an
+    // EclipseState does); the values are converted lazily inside the items, the printed text must not care
+    // (d1 is dumped BEFORE that, while the items still hold what the parser put there: the reference for D2)
+    out.key("d1");
+    dump_deck(d1, out, false);
+    if (jbool(req, "si_first", false)) {
+        JW scratch;
+        dump_deck(d1, scratch, true);
+    }
     std::ostringstream s1;
     s1 << d1;
     out.kv_s("t1", s1.str());
-    out.key("d1");
-    dump_deck(d1, out, false);
     auto ctx = make_context(jstr(req, "ctx", "strict"));
     Opm::ErrorGuard errors;
     struct Clear { Opm::ErrorGuard& e; ~Clear() { e.clear(); } } clear{errors};
